@@ -68,6 +68,12 @@ class Rig:
         if e.endswith("!"):
             e, settle = e[:-1], False
         r = None
+        if s.ctl is not None:
+            # replies that arrived while other sessions were being driven
+            late = s.ctl.take_replies()
+            if late:
+                s.transcript.append(("<late>", late))
+                self._track_passive(s, late)
         if e == "@connect":
             s.ctl = s.peer.connect(s.port)
         elif e == "@data":
